@@ -201,7 +201,7 @@ def check_sub_recipe_references_sum_to_whole(
                                 reference.amount.unit is None
                                 and total_quantity.unit is None
                             ):
-                                conversion = 1.0
+                                conversion = 1
                             else:
                                 raise KeyError()
                             quantity_used = reference.amount.value * conversion
